@@ -5,7 +5,7 @@
 //    "probes":[[id,off,line,col],...]}
 // No expected values here; TLC (spec/PegJudge.tla) evaluates spec/Peg.tla on every record.
 //
-// usage: c02_harness OUT MAXLEN WIDE [ONLY_G ONLY_SK INPUT_JSON]
+// usage: c02_harness OUT MAXLEN WIDE EXTRA_INPUTS SHARD NSHARDS [ONLY_G ONLY_SK]
 #include "c02_common.hpp"
 
 #include <fcppt/nonmovable.hpp>
@@ -137,13 +137,21 @@ try
   }
   if (argc >= 7)
   {
-    r.only_g = std::atoll(argv[5]);
-    r.only_sk = argv[6];
+    r.shard = std::atoi(argv[5]);
+    r.nshards = std::atoi(argv[6]);
+  }
+  if (argc >= 9)
+  {
+    r.only_g = std::atoll(argv[7]);
+    r.only_sk = argv[8];
   }
   c02_run_all(r);
-  run_grammar<char, tree_grammar<char>>(r, 9001, "eps");
-  run_grammar<char, depth_grammar<char>>(r, 9002, "space");
-  if (wide)
+  if (r.shard == 0)
+  {
+    run_grammar<char, tree_grammar<char>>(r, 9001, "eps");
+    run_grammar<char, depth_grammar<char>>(r, 9002, "space");
+  }
+  if (wide && r.shard == 0)
   {
     run_grammar<wchar_t, tree_grammar<wchar_t>>(r, 9001, "eps");
     run_grammar<wchar_t, depth_grammar<wchar_t>>(r, 9002, "space");
